@@ -125,6 +125,30 @@ def apply_ops(ctx, gd, S_names, acyclic, alias=False, ops=None):
             arg_fn = set  # documented as a Collection: a generator or a bare Variable is outside its signature
         run(op, lambda op=op, arg_fn=arg_fn: getattr(g, op)(arg_fn(S)))
     run("districts", g.districts, uses_set=False)
+    if ops is None or "districts" in ops:
+        # the single-node view of the same partition, and the graph's own copy (equal, and independent of the receiver)
+        ref_ = RG.from_nx(g)
+        for vname in sorted(S_names)[:2]:
+            kernel.LOG.reset_case({"graph": gd, "op": "get_district", "S": [vname]})
+            try:
+                got_ = frozenset(g.get_district(gg.node(vname)))
+                want_ = next(frozenset(d_) for d_ in ref_.districts() if gg.node(vname) in d_)
+                kernel.count("eval:NxMixedGraph.get_district")
+                if got_ != want_:
+                    kernel.violation(PROP, "get_district", f"get_district({vname}) = {sorted(map(str, got_))}, the district of "
+                                     f"{vname} is {sorted(map(str, want_))}; graph {gd}")
+            except Exception as e:  # noqa: BLE001
+                kernel.violation(PROP, "get_district", f"get_district({vname}) raised {type(e).__name__}: {e}; graph {gd}")
+        if sum(map(ord, gkey)) % 7 == 0:
+            kernel.LOG.reset_case({"graph": gd, "op": "copy", "S": []})
+            try:
+                c_ = g.copy()
+                kernel.count("eval:NxMixedGraph.copy")
+                if RG.from_nx(c_) != ref_ or not (c_ == g):
+                    kernel.violation(PROP, "copy", f"copy() differs from the receiver; graph {gd}")
+                _probe_alias(g, c_, "copy")
+            except Exception as e:  # noqa: BLE001
+                kernel.violation(PROP, "copy", f"copy() raised {type(e).__name__}: {e}; graph {gd}")
     run("moralize", g.moralize, uses_set=False)
     run("disorient", g.disorient, uses_set=False)
     if S:
